@@ -165,7 +165,7 @@ Proof.
   intros Hb H. unfold parse_int in H. destruct s as [|c r]; [discriminate|].
   assert (Hp : 0 < 2 ^ (bits - 1)) by (apply Z.pow_pos_nonneg; lia).
   destruct (if byte_eqb c x2b || byte_eqb c x2d then r else c :: r) as [|b0 body]; [discriminate|].
-  destruct (parse_unsigned_base0 (b0 :: body)) as [un|] eqn:E; [|discriminate].
+  destruct (parse_unsigned_base0 (b0 :: body)) as [un|] eqn:E; [|destruct (range_first_base0 _ _); [destruct (byte_eqb c x2d)|]; discriminate].
   apply parse_unsigned_nonneg in E.
   destruct (byte_eqb c x2d); cbn [negb andb] in H.
   - destruct (Z.ltb_spec (2 ^ (bits - 1)) un); [discriminate|]. inversion H; subst. lia.
@@ -175,7 +175,7 @@ Qed.
 Theorem parse_uint_range s bits v : 0 < bits -> parse_uint s bits = (v, NumOk) -> 0 <= v < 2 ^ bits.
 Proof.
   intros Hb H. unfold parse_uint in H. destruct s as [|c r]; [discriminate|].
-  destruct (parse_unsigned_base0 (c :: r)) as [un|] eqn:E; [|discriminate].
+  destruct (parse_unsigned_base0 (c :: r)) as [un|] eqn:E; [|destruct (range_first_base0 _ _); discriminate].
   apply parse_unsigned_nonneg in E. destruct (Z.ltb_spec (2 ^ bits - 1) un); [discriminate|]. inversion H; subst. lia.
 Qed.
 
